@@ -41,6 +41,72 @@ def _run_job(job):
                     wall_s=round(time.time() - t0, 2))
 
 
+def _worker(job, conn):
+    try:
+        conn.send(_run_job(job))
+    except BaseException as e:       # noqa
+        try:
+            conn.send(dict(harness=job['name'], errors=[f'worker: {type(e).__name__}: {e}']))
+        except Exception:
+            pass
+    finally:
+        conn.close()
+
+
+def _killed_result(job, why):
+    return dict(harness=job['name'], kind=job.get('kind', 'symx'), paths=0, forks=0, obligations=0, discharged=0,
+                undecided=[dict(harness=job['name'], obligation='*', why=why)], violations=[], witnesses_validated=0,
+                samples=[], solver_s=0, functions=[], exhaustive=False, stopped=why, wall_s=0, errors=[])
+
+
+def _run_pool(jobs, nproc, deadline):
+    """one process per job, at most nproc at a time; a job that overruns its own budget (a solver call that ignores its
+    timeout) or the check's wall-clock cap is killed and reported as undecided, never as success or violation"""
+    ctx = mp.get_context('fork')
+    pending = list(jobs)
+    running = []          # (proc, conn, job, t_start, limit)
+    results = []
+    while pending or running:
+        now = time.time()
+        while pending and len(running) < nproc and now < deadline:
+            job = pending.pop(0)
+            pc, cc = ctx.Pipe(duplex=False)
+            p = ctx.Process(target=_worker, args=(job, cc), daemon=True)
+            p.start()
+            cc.close()
+            running.append((p, pc, job, time.time(), job.get('budget_s', 300) + 90))
+        if pending and now >= deadline and not running:
+            for job in pending:
+                results.append(_killed_result(job, 'not started: wall-clock cap of the check reached'))
+            pending = []
+            break
+        still = []
+        for (p, pc, job, ts, limit) in running:
+            if pc.poll(0):
+                try:
+                    results.append(pc.recv())
+                except EOFError:
+                    results.append(_killed_result(job, 'worker died'))
+                p.join(5)
+                continue
+            if not p.is_alive():
+                results.append(_killed_result(job, 'worker died without a result'))
+                continue
+            if time.time() - ts > limit or time.time() > deadline + 60:
+                p.kill()
+                p.join(5)
+                results.append(_killed_result(job, 'killed: exceeded its wall-clock budget'))
+                continue
+            still.append((p, pc, job, ts, limit))
+        running = still
+        if time.time() >= deadline and pending:
+            for job in pending:
+                results.append(_killed_result(job, 'not started: wall-clock cap of the check reached'))
+            pending = []
+        time.sleep(0.05)
+    return results
+
+
 def load_known():
     p = os.path.join(ROOT, 'known_findings.json')
     if not os.path.exists(p):
@@ -81,12 +147,8 @@ def cmd_check(pid, tier, seed, only=None, jobs_n=None):
     # longest first
     order = sorted(range(len(jobs)), key=lambda i: -jobs[i].get('cost', 1))
     nproc = jobs_n or min(int(os.environ.get('VERIF_JOBS', '16')), max(1, len(jobs)))
-    ctx = mp.get_context('fork')
-    if nproc == 1:
-        results = [_run_job(jobs[i]) for i in order]
-    else:
-        with ctx.Pool(nproc, maxtasksperchild=1) as pool:
-            results = pool.map(_run_job, [jobs[i] for i in order], chunksize=1)
+    cap = float(os.environ.get('VERIF_WALL_CAP_S', '420' if tier == 'quick' else '3300'))
+    results = _run_pool([jobs[i] for i in order], nproc, deadline=t0 + cap)
     results.sort(key=lambda r: r['harness'])
     known = load_known()
     meta = getattr(mod, 'META', {})
